@@ -141,4 +141,15 @@ def structural_faults(msg, rng, enums):
             if p1 == (0,) or k1 == "IR":
                 continue
             out.append(("dup-uuid:%s=%s" % (k1, k2), put(msg, p1, get(msg, p2)), None if k1 == k2 else "DeserializationError*"))
+    # a node carrying the UUID of one of its own ancestors (decode order matters: the ancestor must already be registered)
+    for kind, path in sites:
+        if kind == "IR":
+            continue
+        anc = []
+        for k2, p2 in sites:
+            if p2 != path and len(p2) < len(path) and tuple(path[:len(p2) - 1]) == tuple(p2[:-1]) and p2[-1] == 0:
+                anc.append((k2, p2))
+        anc.append(("IR", (0,)))
+        for k2, p2 in anc:
+            out.append(("dup-ancestor:%s=%s" % (kind, k2), put(msg, path, get(msg, p2)), "DeserializationError"))
     return out
